@@ -50,6 +50,11 @@
 (* expansions are not rational: structure only).  Invariants               *)
 (* MapGivenIsApplied, GeometryObjectUsedAsIs, FieldGeometryEverywhere,     *)
 (* FieldExactData; named deviation GeometryObjectSkipsMap.                 *)
+(* Legacy form: use_legacy is an option field <<given, "True">> (DL); the   *)
+(* legacy operator is the periodic convolution of Conv.tla with the stated *)
+(* PSF (centre tap dim div 2) - the SAME forward model as the non-legacy    *)
+(* form: LegacyIsSameForwardModel, SymmetricKernelCannotTell; named        *)
+(* deviation LegacyCorrelation (kernel in the first row: transposed).      *)
 (* Named deviations (off in the deciding configurations): VarianceAsStd,   *)
 (* OtherModelInstance, GetComponentsCopiesData, OtherPhantom,              *)
 (* TruthinessDefault (`x = x or default`: a given falsy value is replaced  *)
@@ -199,7 +204,12 @@ BCs2   == {"zero", "periodic", "mirror", "neumann", "nearest"}
 \* <<n, m, psf>>
 Shapes1 == IF Size = 0 THEN {<<4, 4, "ramp">>} ELSE IF Size = 1 THEN {<<5, 3, "sym">>, <<4, 4, "ramp">>}
            ELSE {<<5, 3, "sym">>, <<4, 4, "ramp">>, <<5, 3, "ramp">>, <<5, 2, "sym">>, <<3, 5, "ramp">>}
-ShapesL == IF Size = 0 THEN {<<4, 4, "ramp">>} ELSE IF Size = 1 THEN {<<4, 4, "ramp">>, <<4, 4, "sym">>} ELSE {<<4, 4, "ramp">>, <<4, 4, "sym">>, <<6, 6, "ramp">>}
+\* legacy form (use_legacy = True): custom PSF arrays of length dim, even dim (odd dims are refused by the constructor):
+\* ramp (all taps distinct), sym (symmetric about the centre tap dim/2), oneside (3, 2, 1 from the centre tap on, zeros
+\* elsewhere), quad (irregular, with zeros)
+ShapesL == IF Size = 0 THEN {<<4, 4, "ramp">>, <<4, 4, "sym">>}
+           ELSE IF Size = 1 THEN {<<4, 4, "ramp">>, <<4, 4, "sym">>, <<6, 6, "oneside">>}
+           ELSE {<<4, 4, "ramp">>, <<4, 4, "sym">>, <<6, 6, "oneside">>, <<6, 6, "ramp">>, <<4, 4, "quad">>, <<6, 6, "quad">>, <<4, 4, "oneside">>}
 Shapes2 == IF Size = 0 THEN {<<2, 2, "ramp">>} ELSE IF Size = 1 THEN {<<3, 2, "ramp">>} ELSE {<<3, 2, "ramp">>, <<2, 3, "quad">>, <<3, 3, "ramp">>}
 
 \* ---- constructor arguments with documented defaults ---------------------------------------------
@@ -222,10 +232,10 @@ PickS(a, dflt) == IF a[1] /\ ~(Deviation = "TruthinessDefault" /\ FalsyS(a[2])) 
 OptQ == {"psfparam", "pparam", "level", "wdata"}          \* numbers: PSF_param (legacy), phantom_param, noise_std / SNR, data
 \* field options (Part D): field_type, field_params, map / KL_map, imap / KL_imap; documented default None
 OptF == {"ftype", "fparams", "fmap", "fimap"}
-OptS == {"psf", "phantom", "prior", "exsol", "src"} \cup OptF   \* arrays / names / objects: PSF, phantom, prior, exactSolution, source, field options
+OptS == {"psf", "phantom", "prior", "exsol", "src", "legacy"} \cup OptF   \* arrays / names / objects: PSF, phantom, prior, exactSolution, source, field options
 OptNames == OptQ \cup OptS
 
-ArrayPsfs     == {"ramp", "quad", "sym", "zeros"}           \* custom PSF arrays
+ArrayPsfs     == {"ramp", "quad", "sym", "oneside", "zeros"}           \* custom PSF arrays
 LegacyPsfs    == {"lgauss", "lsinc", "lvonmises"}           \* legacy PSF functions g(PSF_param * distance), g(0) = 1
 ArrayPhantoms == {"ramp", "sq", "zeros"}                    \* custom phantom / exact-solution arrays
 NamedPhantoms == {"gauss", "sinc", "vonmises"}              \* phantom functions f(phantom_param * t), f(0) = 1 = max f
@@ -233,13 +243,15 @@ NamedPhantoms == {"gauss", "sinc", "vonmises"}              \* phantom functions
 Base == [problem |-> "na", n |-> 0, m |-> 0, psf |-> NotGivenS, psfparam |-> NotGivenQ, bc |-> "na", orient |-> "na",
          phantom |-> NotGivenS, pparam |-> NotGivenQ, noise |-> "na", level |-> NotGivenQ, prior |-> NotGivenS, zpat |-> "zero",
          exsol |-> NotGivenS, wdata |-> NotGivenQ, wform |-> "na",
-         ftype |-> NotGivenS, fparams |-> NotGivenS, fmap |-> NotGivenS, fimap |-> NotGivenS, src |-> NotGivenS, fcase |-> FALSE]
+         ftype |-> NotGivenS, fparams |-> NotGivenS, fmap |-> NotGivenS, fimap |-> NotGivenS, src |-> NotGivenS, fcase |-> FALSE,
+         legacy |-> NotGivenS]                                   \* use_legacy: <<given, "True">> or not given (documented default False)
 
 D1(s, bc, ph, nz, lv, pr, z) ==
     [Base EXCEPT !.problem = "Deconvolution1D", !.n = s[1], !.m = s[2], !.psf = Giv(s[3]), !.bc = bc, !.phantom = ph,
                  !.noise = nz, !.level = lv, !.prior = pr, !.zpat = z]
-DL(s, o, ph, nz, lv, pr, z) ==
-    [Base EXCEPT !.problem = "Deconvolution1D_legacy", !.n = s[1], !.m = s[2], !.psf = Giv(s[3]), !.bc = "periodic", !.orient = o,
+\* Deconvolution1D(use_legacy = True, ...): the problem label "Deconvolution1D_legacy" names this call form
+DL(s, ph, nz, lv, pr, z) ==
+    [Base EXCEPT !.problem = "Deconvolution1D_legacy", !.n = s[1], !.m = s[2], !.psf = Giv(s[3]), !.bc = "periodic", !.legacy = Giv("True"),
                  !.phantom = ph, !.noise = nz, !.level = lv, !.prior = pr, !.zpat = z]
 D2(s, bc, ph, nz, lv, pr, z) ==
     [Base EXCEPT !.problem = "Deconvolution2D", !.n = s[1], !.m = s[2], !.psf = Giv(s[3]), !.bc = bc, !.phantom = ph,
@@ -333,8 +345,8 @@ FieldOpts == IF Size # 0 THEN FieldOptsAll
 MainOpts ==
        { D1(s, bc, Giv(ph), nz, Giv(lv), pr, z) :
            s \in Shapes1, bc \in BCs1, ph \in {"ramp", "sq"}, nz \in Noises, lv \in Levels, pr \in Priors, z \in ZPats }
-  \cup { DL(s, o, Giv(ph), nz, Giv(lv), pr, z) :
-           s \in ShapesL, o \in {"conv", "corr"}, ph \in {"ramp", "sq"}, nz \in Noises, lv \in Levels, pr \in Priors, z \in ZPats }
+  \cup { DL(s, Giv(ph), nz, Giv(lv), pr, z) :
+           s \in ShapesL, ph \in {"ramp", "sq"}, nz \in Noises, lv \in Levels, pr \in Priors, z \in ZPats }
   \cup { D2(s, bc, Giv(ph), nz, Giv(lv), pr, z) :
            s \in Shapes2, bc \in BCs2, ph \in {"ramp", "sq"}, nz \in Noises, lv \in Levels, pr \in Priors, z \in ZPats }
   \cup { [Base EXCEPT !.problem = p, !.n = 4, !.noise = "snr", !.level = Giv(lv), !.zpat = z, !.exsol = e] :
@@ -344,19 +356,19 @@ FalsyOptsAll ==
        \* all-zero custom PSF / phantom arrays (additive Gaussian noise: the scaled noise is degenerate for zero data)
        { D1([s EXCEPT ![3] = zp[1]], bc, Giv(zp[2]), "gaussian", Giv(Q(1, 2)), pr, "alt") :
            s \in Shapes1, bc \in {"zero", "reflect"}, zp \in UNION {ZeroPairs(t) : t \in Shapes1}, pr \in Priors }
-  \cup { DL([s EXCEPT ![3] = zp[1]], o, Giv(zp[2]), "gaussian", Giv(Q(1, 2)), NotGivenS, "alt") :
-           s \in ShapesL, o \in {"conv", "corr"}, zp \in UNION {ZeroPairs(t) : t \in ShapesL} }
+  \cup { DL([s EXCEPT ![3] = zp[1]], Giv(zp[2]), "gaussian", Giv(Q(1, 2)), NotGivenS, "alt") :
+           s \in ShapesL, zp \in UNION {ZeroPairs(t) : t \in ShapesL} }
   \cup { D2([s EXCEPT ![3] = zp[1]], bc, Giv(zp[2]), "gaussian", Giv(Q(1, 2)), pr, "alt") :
            s \in Shapes2, bc \in {"zero", "neumann"}, zp \in UNION {ZeroPairs(t) : t \in Shapes2}, pr \in Priors }
        \* phantom functions with phantom_param = 0 (constant 1) / not given / built-in phantom; noise_std not given
   \cup { [D1(First(Shapes1), "periodic", ph, "gaussian", lv, NotGivenS, "alt") EXCEPT !.pparam = pp] :
            ph \in {Giv(f) : f \in NamedPhantoms} \cup {NotGivenS}, pp \in {Giv(Zero), NotGivenQ}, lv \in {Giv(Q(1, 2)), NotGivenQ} }
        \* legacy PSF functions with PSF_param = 0 (constant 1: the all-ones circulant matrix)
-  \cup { [DL(<<4, 4, "lgauss">>, "conv", Giv("ramp"), nz, Giv(Q(1, 2)), NotGivenS, "alt") EXCEPT !.psf = g, !.psfparam = Giv(Zero)] :
+  \cup { [DL(<<4, 4, "lgauss">>, Giv("ramp"), nz, Giv(Q(1, 2)), NotGivenS, "alt") EXCEPT !.psf = g, !.psfparam = Giv(Zero)] :
            g \in {Giv(f) : f \in LegacyPsfs} \cup {NotGivenS}, nz \in Noises }
        \* noise_std not given (documented defaults 0.01 / 0.0036)
   \cup { D1(First(Shapes1), "periodic", Giv("ramp"), nz, NotGivenQ, NotGivenS, "alt") : nz \in Noises }
-  \cup { DL(First(ShapesL), o, Giv("ramp"), nz, NotGivenQ, NotGivenS, "alt") : o \in {"conv", "corr"}, nz \in Noises }
+  \cup { DL(First(ShapesL), Giv("ramp"), nz, NotGivenQ, NotGivenS, "alt") : nz \in Noises }
   \cup { D2(First(Shapes2), "periodic", Giv("ramp"), nz, NotGivenQ, NotGivenS, "alt") : nz \in Noises }
        \* all-zero exact solution (Heat1D: zero initial condition; Poisson1D: not admissible, see ValidOpt); SNR not given
   \cup { [Base EXCEPT !.problem = "Heat1D", !.n = 4, !.noise = "snr", !.level = Giv(lv), !.zpat = z, !.exsol = Giv("zeros")] :
@@ -396,6 +408,7 @@ DefaultOf(o, k) ==
       [] k = "psfparam" -> IF o.psf = Giv("lsinc") THEN R(15) ELSE IF o.psf = Giv("lvonmises") THEN R(5) ELSE R(10)
       [] k = "phantom"  -> IF o.problem \in {"Deconvolution1D", "Deconvolution1D_legacy"} THEN "sinc" ELSE "builtin"
       [] k = "psf"      -> IF o.problem = "Deconvolution1D_legacy" THEN "lgauss" ELSE "builtin"
+      [] k = "legacy"   -> "False"                    \* use_legacy = False
       [] k \in OptF     -> "None"                     \* field_type = None, field_params = None, map = None, imap = None
       [] OTHER          -> "builtin"                  \* the problem's built-in PSF / phantom / prior / exact solution
 Resolve(o, PQ(_, _), PS(_, _)) ==
@@ -435,9 +448,17 @@ PsfArr(o, e) == LET nm == IF PsfName(o, e) = "builtin" THEN "sym" ELSE PsfName(o
 \* the operator of a deconvolution option (integer matrix); bcx overrides the boundary condition
 DeconvMat(o, e, bcx) ==
     CASE o.problem = "Deconvolution1D"        -> CV!ConvMat1(PsfArr(o, e), o.n, bcx)
-      [] o.problem = "Deconvolution1D_legacy" -> LET C == CV!ConvMat1(PsfArr(o, e), o.n, "periodic")
-                                                 IN IF o.orient = "conv" THEN C ELSE CV!IT(C)
+      \* the legacy matrix representation OF THE SAME forward model: the periodic convolution with the stated PSF, centre
+      \* tap dim div 2 (the code rolls the kernel by -dim/2 and builds a circulant matrix from it)
+      [] o.problem = "Deconvolution1D_legacy" -> CV!ConvMat1(PsfArr(o, e), o.n, "periodic")
       [] o.problem = "Deconvolution2D"        -> CV!ConvMat2(PsfArr(o, e), o.n, bcx)
+IsLegacy(o) == o.problem = "Deconvolution1D_legacy"
+\* what the modelled implementation assembles.  Named deviation LegacyCorrelation: the legacy builder puts the rolled kernel
+\* into the first ROW instead of the first column, A[i][j] = P[(j - i + c) mod n]: the correlation = the transposed operator
+ImplMat(o, e, bcx) == IF IsLegacy(o) /\ Deviation = "LegacyCorrelation" THEN CV!IT(DeconvMat(o, e, bcx)) ELSE DeconvMat(o, e, bcx)
+\* a kernel that is symmetric about the centre tap in the circulant sense: P[c + d] = P[c - d] (indices mod n)
+CircSym(P) == LET n == Len(P)  c == n \div 2
+              IN \A k \in 0..(n - 1) : P[k + 1] = P[((2 * c - k + 2 * n) % n) + 1]
 OtherBC(bc) == IF bc = "zero" THEN "nearest" ELSE "zero"
 \* exact data: the operator applied to the solution; for the other linear models only "zero in, zero out" is used
 YVec(o, A, x) == IF IsDeconv(o) THEN IMV(A, x)
@@ -565,8 +586,8 @@ ModelRec(A, tag) ==
 BuildModel ==
     /\ pc = "geom_selected"
     /\ heap' = [k \in DOMAIN heap \cup {"model", "model2"} |->
-                  IF k = "model" THEN ModelRec(IF AK THEN DeconvMat(opt, U, opt.bc) ELSE <<>>, "documented")
-                  ELSE IF k = "model2" THEN ModelRec(IF AK THEN DeconvMat(opt, U, OtherBC(opt.bc)) ELSE <<>>, "other")
+                  IF k = "model" THEN ModelRec(IF AK THEN ImplMat(opt, U, opt.bc) ELSE <<>>, "documented")
+                  ELSE IF k = "model2" THEN ModelRec(IF AK THEN ImplMat(opt, U, OtherBC(opt.bc)) ELSE <<>>, "other")
                   ELSE heap[k]]
     /\ pc' = "model_built" /\ UNCHANGED <<opt, prob, comps>>
 
@@ -685,6 +706,22 @@ SameGeometries ==
     Done => /\ Compat(heap[PPrior].geom, heap[PModel].dgeom) /\ heap[PPost].geom = heap[PModel].dgeom
             /\ (~IsWang(opt) => heap.xex.geom = heap[PModel].dgeom /\ heap.yex.geom = heap[PModel].rgeom)
             /\ Compat(heap[PData].geom, heap[PModel].rgeom)
+\* ---- the legacy form of Deconvolution1D ----
+\* use_legacy = True is "the legacy matrix representation of the forward model": for every custom PSF array that is admissible
+\* in BOTH forms (length dim, periodic boundary, even dim) the legacy operator is the operator of the non-legacy form
+LegacyIsSameForwardModel ==
+    (Done /\ IsLegacy(opt) /\ AK /\ D.psf \in ArrayPsfs) =>
+        heap[PModel].A = DeconvMat([opt EXCEPT !.problem = "Deconvolution1D", !.legacy = NotGivenS], D, "periodic")
+\* a kernel that is circulant-symmetric about its centre tap cannot tell the convolution from the correlation (the
+\* transposed operator) - and only such a kernel: the built-in legacy kernels (Gauss, sinc, vonMises) are of this kind,
+\* the custom arrays ramp / oneside / quad are not
+SymmetricKernelCannotTell ==
+    (Done /\ IsLegacy(opt) /\ AK) =>
+        LET C == DeconvMat(opt, D, "periodic") IN CircSym(PsfArr(opt, D)) <=> (CV!IT(C) = C)
+\* (deviation runs) on the symmetric kernels the assembled operator is the stated one whatever the orientation
+LegacySymmetricUnaffected ==
+    (Done /\ IsLegacy(opt) /\ AK /\ CircSym(PsfArr(opt, D))) => heap[PModel].A = DeconvMat(opt, D, "periodic")
+
 \* ---- Part D: the field options ----
 \* a map that is given is applied - for EVERY form of field_type: the model's domain geometry is the Mapped wrapper of the
 \* stated base geometry with the given map and imap (and is the base itself when no map is given), and the model's
@@ -771,6 +808,7 @@ EmitProblem ==
          domdim |-> DomDim(opt), rngdim |-> RngDim(opt),
          numeric |-> AK, xknown |-> XK, yknown |-> YK, dknown |-> DK,
          psf |-> IF AK THEN PsfArr(opt, D) ELSE <<>>,
+         legacy |-> IsLegacy(opt), psfsym |-> IF IsLegacy(opt) /\ AK THEN CircSym(PsfArr(opt, D)) ELSE FALSE,
          A |-> heap[PModel].A,
          x |-> IF XK THEN heap.xex.vals ELSE <<>>,
          y |-> IF YK THEN heap.yex.vals ELSE <<>>,
